@@ -5,8 +5,11 @@ export GOFLAGS=-mod=mod GOPROXY=off GOSUMDB=off GOTOOLCHAIN=local
 SRC=$(readlink -f "$1"); BACK=${2:-vm}; LIM=${3:-}
 T=${HMS_TREE:-}
 CLEAN=0
+# never write into /repo itself (other tools copy it concurrently): HMS_TREE=/repo means "the current working tree", as a scratch copy
+if [ "$T" = "/repo" ]; then T=$(mktemp -d /tmp/triage-XXXX); rsync -a --exclude=.git /repo/ $T/; CLEAN=2; fi
 if [ -z "$T" ]; then T=$(mktemp -d /tmp/triage-XXXX); rmdir $T; git -C /repo worktree add -q --detach $T HEAD; CLEAN=1; fi
 cp "$(dirname "$0")/zz_triage_test.go" $T/homescript/zz_triage_test.go
 (cd $T && HMS_SRC=$SRC HMS_BACKEND=$BACK HMS_LIMITS=$LIM timeout 60 go test -vet=off -count=1 -v -run '^TestTriage$' ./homescript 2>&1 | grep -v '^ok\|^PASS\|^=== RUN\|^--- PASS' | head -${HMS_LINES:-40})
 rm -f $T/homescript/zz_triage_test.go
 [ $CLEAN = 1 ] && git -C /repo worktree remove --force $T
+[ $CLEAN = 2 ] && rm -rf $T
